@@ -3,6 +3,7 @@ package hx
 import (
 	"context"
 	"fmt"
+	logutil "github.com/boz/go-logutil"
 	"sort"
 	"strconv"
 	"strings"
@@ -27,11 +28,14 @@ type Root struct {
 	Published []string // rendered events in publication order (written by the publishing driver only)
 }
 
-func NewRoot(f filter.Filter) *Root {
+func NewRoot(f filter.Filter) *Root { return NewRootLog(f, Log) }
+
+// NewRootLog: the root with a logger of the caller's (everything subscribed below inherits it; see SlowLog).
+func NewRootLog(f filter.Filter, log logutil.Log) *Root {
 	r := &Root{StopCh: make(chan struct{}), ReadyCh: make(chan struct{})}
-	r.Cache = kcache.VNewCache(context.Background(), Log, r.StopCh, f)
-	r.Sub = kcache.VNewSubscription(Log, r.StopCh, r.ReadyCh, r.Cache.Reader())
-	r.Pub = kcache.VNewPublisher(Log, r.Sub.Sub())
+	r.Cache = kcache.VNewCache(context.Background(), log, r.StopCh, f)
+	r.Sub = kcache.VNewSubscription(log, r.StopCh, r.ReadyCh, r.Cache.Reader())
+	r.Pub = kcache.VNewPublisher(log, r.Sub.Sub())
 	return r
 }
 
